@@ -719,7 +719,13 @@ def wrap_container(case, a):
     """the data as ndarray or DataFrame, chosen by the case (explicit "container" or the parity of n + p)"""
     import pandas as pd
 
+    import numpy as np
+
     kind = case.get("container") or ("frame" if _bits(case, 0, 2) else "ndarray")
+    # integer-typed data when the values allow it (a third of such cases): results must not depend on the dtype
+    if case.get("int_ok", True) and _bits(case, 28, 3) == 0 and np.issubdtype(np.asarray(a).dtype, np.floating) and np.all(np.asarray(a) == np.round(a)) \
+            and np.abs(a).max(initial=0) < 2**40:
+        a = np.asarray(a).astype(np.int64)
     return pd.DataFrame(a) if kind == "frame" else a
 
 
@@ -740,11 +746,7 @@ def fit_for(det, case, X, reps=4):
     if mode == "inplace":
         D = wrap_container(case, (X[::-1] * 2.0 + 1.0).copy())
         det.fit(D)
-        if isinstance(D, pd.DataFrame):
-            D.iloc[:, :] = X
-        else:
-            D[...] = X
-        return D, len(X)
+        return overwrite(D, X), len(X)
     det.fit(wrap_container(case, X))
     return wrap_container(case, X), len(X)
 
@@ -762,14 +764,33 @@ def borderline_scale(case, scores, default_thr):
     return v * (1 + side * 1e-6) / default_thr
 
 
-def prior_use(det, case, X):
-    """before the judged calls, use the fitted detector on OTHER data with the same shape and index
-    (a result cached under the index of the previous call would then be returned for the wrong data)"""
-    kind = case.get("prior", [None, "predict", "scores"][_bits(case, 24, 3)])
+def overwrite(D, X):
+    """replace the contents of the array / frame object D by X, in place"""
+    import pandas as pd
+
+    if isinstance(D, pd.DataFrame):
+        D.iloc[:, :] = X
+    else:
+        D[...] = X
+    return D
+
+
+def prior_use(det, case, X, data=None):
+    """before the judged calls, use the fitted detector on OTHER data with the same shape and index (a result cached under
+    the index of the previous call would then be returned for the wrong data); kind "same-object": the other data live in
+    the very object that is afterwards overwritten in place with X and handed to the judged calls (anything remembered
+    about that object — a stored reference compared with itself, a memo keyed by identity — is stale).
+    Returns the data object to use for the judged calls."""
+    kind = case.get("prior", [None, "predict", "scores", "same-object"][_bits(case, 24, 4)])
+    data = wrap_container(case, X) if data is None else data
+    if kind == "same-object":
+        D = wrap_container(case, (X[::-1] * 2.0 + 1.0).copy())
+        det.predict(D)
+        return overwrite(D, X)
     if kind:
         X0 = wrap_container(case, X[::-1] * 2.0 + 1.0)
         try:
             det.predict(X0) if kind == "predict" else det.transform_scores(X0)
         except NotImplementedError:  # detectors without per-sample scores
             det.predict(X0)
-    return kind
+    return data
